@@ -1772,3 +1772,7 @@ package main
 //@        && (forall j int :: 0 <= j && j < len(result.Headers) ==> result.Headers[j] == kvOfText(split(uriHdrPart(uriBody(uri)), "&")[j]))
 //@   ensures user: err == nil ==> (let ui == uriUserInfo(uriCore(uriNoHdr(uriBody(uri)))) :: (!contains(ui, ":") ==> result.User == ui && result.Password == "") && (contains(ui, ":") ==> result.User == ui[0:indexOf(ui, ":")] && result.Password == ui[indexOf(ui, ":")+1:]))
 //@   ensures host: err == nil ==> (let hp == uriHostPort(uriCore(uriNoHdr(uriBody(uri)))) :: (!contains(hp, ":") ==> result.Host == hp && result.port == 0) && (contains(hp, ":") ==> result.Host == hp[0:indexOf(hp, ":")] && (atoiOk(hp[indexOf(hp, ":")+1:]) ==> result.port == atoiVal(hp[indexOf(hp, ":")+1:]))))
+
+// a channel that is sent to while a mutex is held (the round-robin set notifies its listeners under its lock)
+// must be buffered, or the sender waits under the lock for a loop that may need the same lock
+//@ bufferedchan Proxy.backendChangeChannel
